@@ -428,6 +428,22 @@ func (r *neoRun) onDeposit(t *e1.TxTrace, s *neoSub) {
 		signers, scriptOK = r.c.distinctWitnessSigners(T, msg, inv, ver)
 		need = T.m
 	}
+	// a k-of-n script over exactly the tracked keys with k above the required count is at least
+	// as strong as the tracked rule: judged by its own k
+	if err == nil && T != nil && !scriptOK {
+		if alt := r.c.reg[scriptHash(ver)]; alt != nil && alt.m > T.m && sameMembers(alt, T) {
+			if n, ok := r.c.distinctWitnessSigners(alt, msg, inv, ver); ok && n >= alt.m {
+				signers, scriptOK = n, true
+			}
+		}
+	}
+	div3 := T != nil && len(T.members)%3 == 0
+	if T != nil {
+		run.Probe(fmt.Sprintf("%s_msg_presented_to_tracked_set_size_%d", r.pre(), len(T.members)))
+		if div3 {
+			run.Probe(r.pre() + "_msg_tracked_set_size_divisible_by_3")
+		}
+	}
 	replay := r.done[ccid]
 	run.Logf("%s deposit %s tracked=%v witness-for-tracked=%v signers=%d/%d replay=%v txok=%v", r.pre(), lab, T != nil, scriptOK, signers, need, replay, t.OK)
 	if neoFaultLabel(lab) {
@@ -447,6 +463,9 @@ func (r *neoRun) onDeposit(t *e1.TxTrace, s *neoSub) {
 			if neoFaultLabel(lab) {
 				r.nRejBad++
 			}
+			if div3 && lab == "m-minus-one-script" {
+				run.Probe(r.pre() + "_msg_m_minus_one_script_rejected_at_size_divisible_by_3")
+			}
 		}
 		return
 	}
@@ -456,6 +475,9 @@ func (r *neoRun) onDeposit(t *e1.TxTrace, s *neoSub) {
 			why = "no validator set is tracked"
 		} else if !scriptOK {
 			why = "the witness script is not the tracked validators' script"
+			if alt := r.c.reg[scriptHash(ver)]; alt != nil {
+				why = fmt.Sprintf("the witness script is %q (%d-of-%d), not the script of the %d tracked validators, which requires %d = n-(n-1)/3 signatures", alt.label, alt.m, len(alt.members), len(T.members), T.m)
+			}
 		}
 		run.Fail("C24", r.pre()+"-state-root-accepted-without-required-distinct-signers", "importOuterTransfer accepted a state root (%s): %s", lab, why)
 		r.stop = true
@@ -467,6 +489,9 @@ func (r *neoRun) onDeposit(t *e1.TxTrace, s *neoSub) {
 	}
 	if signers == need {
 		run.Probe(r.pre() + "_msg_accepted_with_exactly_m_signers")
+	}
+	if div3 && lab == "honest" {
+		run.Probe(r.pre() + "_msg_honest_accepted_at_size_divisible_by_3")
 	}
 	run.Probe(fmt.Sprintf("%s_msg_accepted_set_size_%d", r.pre(), len(T.members)))
 	r.done[ccid] = true
@@ -515,4 +540,16 @@ func (r *neoRun) svChange(add bool, accts []*account.Account) {
 	}
 	r.run.Logf("neo3 state validators now %d", len(r.svCur))
 	r.run.Probe("neo3_state_validators_changed")
+}
+
+func sameMembers(a, b *neoSet) bool {
+	if len(a.members) != len(b.members) {
+		return false
+	}
+	for i := range a.members {
+		if a.members[i] != b.members[i] {
+			return false
+		}
+	}
+	return true
 }
